@@ -489,6 +489,35 @@ def constraints_rules(chk):
             if not (isinstance(st.value, ast.Name) and st.value.id == st.targets[0].attr):
                 chk.bad(r, init.qual, "self.%s is stored from %s" % (st.targets[0].attr, util.unparse(st.value)), node=st)
                 ok = False
+    # defaults: a plugin that declares nothing is optional and unconstrained (a digest without the decorator gets
+    # PluginRequirements() -- the loader's fallback)
+    def defaults(fn):
+        a = fn.node.args
+        pos = a.posonlyargs + a.args
+        d = dict(zip([x.arg for x in pos[len(pos) - len(a.defaults):]], a.defaults))
+        d.update({x.arg: v for x, v in zip(a.kwonlyargs, a.kw_defaults) if v is not None})
+        return d
+
+    for fn in (fi, init):
+        d = defaults(fn)
+        for need in ("required", "before", "after"):
+            chk.count()
+            v = d.get(need)
+            if v is None:
+                continue  # no default: every caller must say it
+            if need == "required":
+                good = isinstance(v, ast.Constant) and v.value is False
+            else:
+                good = (isinstance(v, (ast.Tuple, ast.List, ast.Set)) and not v.elts) or (isinstance(v, ast.Call) and util.dotted(v.func) in ("frozenset", "set", "tuple", "list") and not v.args and not v.keywords)
+            if not good:
+                chk.bad(
+                    r,
+                    fn.qual,
+                    "the default of `%s` is %s: %s" % (need, util.unparse(v), "a plugin that does not declare itself required becomes required, so a configuration without its section fails to load" if need == "required" else "every plugin gets an ordering constraint it never declared"),
+                    node=fn.node,
+                    stmt="default-%s" % need,
+                )
+                ok = False
     sp = prog.cls("cobald.daemon.config.mapping:SectionPlugin")
     for acc in ("before", "after", "required"):
         g = prog.pick(sp.methods.get(acc, []), "getter")
